@@ -221,7 +221,7 @@ def idem_worker(cfg):
 
     errs = []
     runner = runs.run_standard_case if cfg["kind"] == "std" else runs.run_ins_case
-    res = runner(cfg, want=(), keep_output=True)
+    res = runner(cfg, want=("c05",) if cfg["kind"] == "ins" else (), keep_output=True)
     n = 1
     out = res.get("output")
     try:
@@ -446,6 +446,11 @@ def run(ctx):
         {"kind": "ins", "model": "G2", "seed": ctx.seed, "kwargs": {"draw_iid_live": False}, "resume": "none"},
         {"kind": "ins", "model": "G2", "seed": ctx.seed + 1, "kwargs": {"save_log_q": True, "max_iteration": 2}, "resume": "every"},
         {"kind": "ins", "model": "G2", "seed": ctx.seed, "kwargs": {"stopping_criterion": "ess", "tolerance": 1e9}, "resume": "none"},
+        # interrupted at every checkpoint, including the one written at the stopping iteration: the
+        # resumed run must still stop at the first iteration whose recorded criteria meet the tolerances
+        {"kind": "ins", "model": "G2", "seed": ctx.seed, "kwargs": {}, "resume": "every"},
+        {"kind": "ins", "model": "G2", "seed": ctx.seed, "kwargs": {"stopping_criterion": "log_dZ", "tolerance": 5.0, "max_iteration": 8}, "resume": "every"},
+        {"kind": "ins", "model": "G2", "seed": ctx.seed + 1, "kwargs": {"stopping_criterion": ["ratio", "ess"], "tolerance": [0.5, 1000.0], "check_criteria": "any", "max_iteration": 8, "draw_constant": False}, "resume": "every"},
     ]
     for it, res in ctx.pmap(idem_worker, idem):
         ctx.merge(res)
